@@ -1,10 +1,10 @@
-\* C37/C38 leg A quick: grid 0..7, <= 3 samples, counter values {0,1,2} or NaN, r1 = 2, r2 = 4,
-\* level-1 chunk counts {1,3}, level-2 chunk counts 1..2: 4 065 series x 4; all go to the harness
+\* C37/C38 leg A quick: grid 0..7, <= 3 samples, counter values {0,1,2} (growth, flat, resets; NaN / stale tokens: thorough tier and random cases), r1 = 2, r2 = 4,
+\* level-1 chunk counts {1,3}, level-2 chunk counts 1..2: 1 789 series x 4; all go to the harness
 SPECIFICATION Spec
 CONSTANTS GridLen = 8
           MaxSamples = 3
           Vals = {0, 1, 2}
-          Tokens = {"NaN"}
+          Tokens = {}
           R1 = 2
           Mults = {2}
           Counts1 = {1, 3}
